@@ -28,6 +28,9 @@ pub enum Step {
     /// among the current leaders (pick mod #leaders); no-op without a leader
     Heartbeat { pick: u8 },
     Propose { pick: u8, payload: u32 },
+    /// `n` proposals in a row at one of the current leaders (long logs: requests that
+    /// carry many entries, probing over long distances, batching)
+    ProposeMany { pick: u8, n: u16, payload: u32 },
     CheckQuorum { pick: u8 },
     Advance { ms: u32 },
     /// bit i set: node i on side A; messages across sides are dropped at delivery
@@ -523,6 +526,56 @@ impl Scenario for C01 {
             let at = rng.usize_below(steps.len() + 1);
             steps.splice(at..at, f);
         }
+        // One run in ten has long logs: a follower with a stale suffix catches up with
+        // a later leader over a long distance. a replicates a long common prefix and, cut
+        // off, proposes a little more; b commits a long run with the others; c (or b
+        // again) takes over; the links come back and the new leader's probing and
+        // (possibly batched) requests have to bring a's log into line. All counts random.
+        if rng.chance(1, 10) {
+            let a = rng.below(nn) as u8;
+            let b = ((u64::from(a) + 1 + rng.below(nn - 1)) % nn) as u8;
+            let others: Vec<u8> = (0..nn as u8).filter(|x| *x != a && *x != b).collect();
+            let c = if rng.chance(3, 4) { *rng.pick(&others) } else { b };
+            let per_round = 2 * (nn - 1);
+            let deliver = |f: &mut Vec<Step>, rng: &mut Rng, rounds: u64| {
+                for _ in 0..rounds * per_round + rng.below(per_round) {
+                    f.push(Step::Deliver { pick: 0 });
+                }
+            };
+            let mut f: Vec<Step> = vec![Step::Heal, Step::Timeout { node: a }];
+            deliver(&mut f, rng, 2);
+            f.push(Step::ProposeMany { pick: 0, n: rng.range(40, 150) as u16, payload: rng.below(1 << 20) as u32 });
+            for _ in 0..2 {
+                f.push(Step::Heartbeat { pick: 0 });
+                deliver(&mut f, rng, 1);
+            }
+            f.push(Step::IsolateLeader { pick: 0 });
+            for _ in 0..rng.range(1, 3) {
+                f.push(Step::Propose { pick: 0, payload: rng.below(1 << 20) as u32 });
+            }
+            f.push(Step::Timeout { node: b });
+            deliver(&mut f, rng, 2);
+            f.push(Step::ProposeMany { pick: 1, n: rng.range(60, 180) as u16, payload: rng.below(1 << 20) as u32 });
+            f.push(Step::ProposeMany { pick: 0, n: rng.range(1, 3) as u16, payload: rng.below(1 << 20) as u32 });
+            for _ in 0..3 {
+                f.push(Step::Heartbeat { pick: 1 });
+                f.push(Step::Heartbeat { pick: 0 });
+                deliver(&mut f, rng, 1);
+            }
+            if c != b {
+                f.push(Step::Timeout { node: c });
+                deliver(&mut f, rng, 2);
+            }
+            f.push(Step::Heal);
+            for _ in 0..rng.range(8, 16) {
+                for pick in 0..2u8 {
+                    f.push(Step::Heartbeat { pick });
+                }
+                deliver(&mut f, rng, 1);
+            }
+            let at = rng.usize_below(steps.len() + 1);
+            steps.splice(at..at, f);
+        }
         Case {
             n,
             wal,
@@ -700,6 +753,28 @@ impl Scenario for C01 {
                         } else {
                             ctx.probe("proposal_refused");
                         }
+                        acted = Some(i);
+                    }
+                },
+                Step::ProposeMany { pick, n: count, payload } => {
+                    let ls = cl.leaders();
+                    if !ls.is_empty() {
+                        let i = ls[*pick as usize % ls.len()];
+                        let fp = case.fast_path;
+                        let id = ids[i].clone();
+                        let mut accepted = 0u32;
+                        for _ in 0..*count {
+                            payload_seq += 1;
+                            let pl = (u64::from(*payload) << 16) | payload_seq;
+                            if let Some(Ok(_)) = cl.on_node(i, |nd| nd.propose(mk_block(pl, &id, fp))) {
+                                accepted += 1;
+                            }
+                        }
+                        ctx.event(&format!("{si}: {} proposes {count} entries in a row ({accepted} accepted)", ids[i]));
+                        if accepted >= 64 {
+                            ctx.probe("long_run_of_proposals_accepted");
+                        }
+                        ctx.fp("propose-many");
                         acted = Some(i);
                     }
                 },
